@@ -42,6 +42,18 @@ Oracle (on the Tap-decoded, ordered log of everything T sent; `c10.Wire` gives t
   op-lost              queued user operations complete; M's reply (if one is due) is on the wire
                        after NEWKEYS; M's payload (data, stderr data, exit status, the outcome of a
                        pending channel open) reaches the app
+                       an "open-failure" M counts as delivered when the blocked open_channel() call failed with an
+                       SSHException that is not its own timeout; only when it is the single refused open of the
+                       session must that be the ChannelException with the peer's reason code (correction: the
+                       transport keeps one saved-exception slot, so with several refusals in flight the second caller
+                       gets "Unable to open channel." - which subclass a caller sees is not this property's subject)
+Harness conformance: everything the puppet's harness threads send (M, bulk stream, sentinel, answers to the queued
+operations; storm sentinels) goes through `Puppet.send_conn`: test "not between the puppet's own KEXINIT and its own
+NEWKEYS" and write are one step under the packetizer's write lock, so the puppet never puts a connection-layer message
+inside an exchange of its own (correction: with lowered thresholds the bulk stream makes the tested side ask for the
+next exchange while the sender thread is still writing; data after the puppet's KEXINIT made the tested side end the
+session with MessageOrderError - a protocol violation of the harness). Data written before the puppet's KEXINIT while
+the tested side's KEXINIT is already out is the crossing traffic of the statement and stays.
 Buckets: `<clause>|<component>` where component is the M kind (`chanreq:<name>:<want_reply>`,
 `close`, `global:1`, `open:accepted`, ...), `keepalive`, or `op:<kind>`. A failing case with several
 components is re-run with each component alone (delta debugging by construction) so that buckets
@@ -213,6 +225,21 @@ def excluded_ops():
     return set(op for key, op in FINDING_OPS.items() if known.get(key, {}).get("status") == "open")
 
 
+def open_refused(e, exact):
+    """the outcome of an open_channel() call whose CHANNEL_OPEN_FAILURE crossed the exchange: the refusal reached the
+    caller = the call failed with an SSHException that is not its own timeout. `exact` (this is the only refused open
+    of the session): the failure is the ChannelException carrying the reason code the peer sent (2). With several
+    refusals in flight the transport's single saved-exception slot may hand one ChannelException to the first caller
+    and "Unable to open channel." to the next - which subclass a caller sees then is outside this property."""
+    from paramiko.ssh_exception import ChannelException, SSHException
+
+    if e is None or not isinstance(e, SSHException) or "Timeout opening channel" in str(e):
+        return False
+    if exact:
+        return isinstance(e, ChannelException) and e.code == 2
+    return True
+
+
 def open_sender(payload):
     """sender channel id of a logged CHANNEL_OPEN (payload without the type byte)."""
     n = int.from_bytes(payload[:4], "big")
@@ -274,6 +301,7 @@ def execute(case):
     info = {}
     threads = []
     opres = {}
+    opexc = {}
     # harness-side instrumentation of the in-memory socket: count T's read timeouts (each one is
     # an opportunity for its keepalive timer to fire)
     import socket as _socket
@@ -333,11 +361,32 @@ def execute(case):
                     opres[name] = ("ok", fn())
                 except Exception as e:  # judged by the oracle
                     opres[name] = ("exc", repr(e), type(e).__name__)
+                    opexc[name] = e
 
             th = threading.Thread(target=w, daemon=True, name="c11-" + name)
             threads.append(th)
             th.start()
             return th
+
+        def p_send(payload):
+            """the puppet's connection-layer messages before the exchange under test: `Puppet.send_conn`, i.e. never
+            between the puppet's own KEXINIT and its NEWKEYS (an exchange nobody asked for yet cannot be pending
+            here for long; one that does not end is a harness problem at this point)"""
+            try:
+                return P.send_conn(payload, WAIT)
+            except peers.NotSent as e:
+                raise core.HarnessError("puppet could not send before the exchange under test: %s" % e)
+
+        def p_send_after(payload):
+            """the same after the exchange under test (sentinel, answers to the queued operations): the tested side
+            may have started the next exchange already (lowered thresholds, counted in both directions); if that
+            one does not end within WAIT nothing is written and the oracle sees the missing round trip"""
+            try:
+                P.send_conn(payload, WAIT)
+                return True
+            except (EOFError, OSError, peers.NotSent) as e:
+                info.setdefault("not_sent", []).append(repr(e))
+                return False
 
         def t_open():
             if role == "client":
@@ -368,7 +417,7 @@ def execute(case):
         m_index = []
         for i, kind in enumerate(ms):
             m_index.append(len(in_d.sent))
-            P.send_raw_seq(build_m(kind, i, t_ids[i], role))
+            p_send(build_m(kind, i, t_ids[i], role))
         # bulk stream: an eager sender has filled `fill` percent of the tested side's receive window when the exchange
         # starts (all of it in flight behind M), and goes on as fast as the window allows afterwards
         bst = dict(sent=0, got=0, pk=0, total=0, adj=0, cont_at=None)
@@ -381,12 +430,15 @@ def execute(case):
             def bulk_send(n):
                 while n > 0:
                     k = min(b_size, n)
-                    P.send_raw_seq(peers.m_channel_data(b_tid, c10.pattern(40, bst["sent"], k)))
+                    P.send_conn(peers.m_channel_data(b_tid, c10.pattern(40, bst["sent"], k)), WAIT)
                     bst["sent"] += k
                     bst["pk"] += 1
                     n -= k
 
-            bulk_send(b_fly)
+            try:
+                bulk_send(b_fly)
+            except peers.NotSent as e:
+                raise core.HarnessError("puppet could not send before the exchange under test: %s" % e)
         n_held = len(ms) + bst["pk"]
         info["bulk_packets_in_flight"] = bst["pk"]
         if not in_d.wait_pending(n_held, WAIT):
@@ -558,10 +610,7 @@ def execute(case):
         n_glob = sum(1 for k in ms if k == "global:1")
         if T.is_active() and P.is_active():
             seen = len(P.log)
-            try:
-                P.send_raw_seq(peers.m_global_request(SENTINEL, True))
-            except (EOFError, OSError):
-                pass
+            p_send_after(peers.m_global_request(SENTINEL, True))
 
             def got(lg):
                 if sum(1 for e in lg if e[1] in (81, 82)) >= n_glob + 1 and any(e[1] in (81, 82) for e in lg[seen:]):
@@ -577,16 +626,16 @@ def execute(case):
             p_id = chP[2 if len(ms) < 3 else 3].get_id()
             o = P.wait_log(lambda lg: any(e[1] == 98 and e[2][:4] == R.u32(p_id) for e in lg), WAIT)
             if o:
-                P.send_raw_seq(peers.m_channel_success(ex_ch.get_id()))
+                p_send_after(peers.m_channel_success(ex_ch.get_id()))
         # channel open / waiting global requests: answered once they show up (after the exchange)
         if "open" in ops and T.is_active():
             o = P.wait_log(lambda lg: logged_opens(lg)[n_pre:], WAIT)
             if o:
-                P.send_raw_seq(peers.m_channel_open_confirm(open_sender(o[0][2]), 3000))
+                p_send_after(peers.m_channel_open_confirm(open_sender(o[0][2]), 3000))
         for opk, rname in (("fwd", b"tcpip-forward"), ("globalw", b"opw@verif")):
             if opk in ops and T.is_active():
                 if P.wait_log(lambda lg: any(e[1] == 80 and e[2].startswith(R.string(rname)) for e in lg), WAIT):
-                    P.send_raw_seq(peers.m_request_success())
+                    p_send_after(peers.m_request_success())
         if bulk and T.is_active() and P.is_active():
             # the transfer continues: the sender writes whenever the window the tested side has granted allows it
             bst["cont_at"] = len(in_d.sent)
@@ -604,6 +653,10 @@ def execute(case):
                         time.sleep(0.002)
             except (EOFError, OSError):
                 pass
+            except peers.NotSent as e:
+                # a later exchange (lowered thresholds: the stream itself makes the tested side ask again) that does
+                # not end: the transfer cannot go on, reported by the op-lost clause below
+                info.setdefault("not_sent", []).append(repr(e))
             info["bulk"] = dict(sent=bst["sent"], total=bst["total"], window=b_w, adjusted=bst["adj"])
         for th in threads:
             th.join(WAIT)
@@ -626,7 +679,13 @@ def execute(case):
                         delivered[i] = ch.recv(10) == b""
                     elif kind in PENDING_OPEN:
                         res = opres.get("pre-open:%d" % i)
-                        delivered[i] = res is not None and (res[0] == "ok" if kind == "open-confirm" else res[-1] == "ChannelException") or "open_channel outcome %r" % (res,)
+                        if res is None:
+                            ok = False
+                        elif kind == "open-confirm":
+                            ok = res[0] == "ok"
+                        else:
+                            ok = open_refused(opexc.get("pre-open:%d" % i), exact=ms.count("open-failure") == 1)
+                        delivered[i] = ok or "open_channel outcome %r" % (res,)
                 except Exception as e:
                     delivered[i] = "exc %r" % (e,)
         alive = (T.is_active(), P.is_active())
@@ -716,8 +775,8 @@ def execute(case):
             if res is None or res[0] != "ok":
                 bi = info.get("bulk", {})
                 lost.append(
-                    "bulk stream P->T did not continue after the exchange: %r; sender wrote %s of %s bytes and has no window left (window %s + %s bytes of WINDOW_ADJUST seen)"
-                    % (res, bi.get("sent"), bi.get("total"), bi.get("window"), bi.get("adjusted"))
+                    "bulk stream P->T did not continue after the exchange: %r; sender wrote %s of %s bytes and %s (window %s + %s bytes of WINDOW_ADJUST seen)"
+                    % (res, bi.get("sent"), bi.get("total"), "waited for an exchange that did not end: %r" % info["not_sent"] if info.get("not_sent") else "has no window left", bi.get("window"), bi.get("adjusted"))
                 )
             # evidence: a WINDOW_ADJUST of the bulk channel that was written after NEWKEYS and before the sender went on
             g_cont = rows_in[bst["cont_at"] - 1][0] if bst["cont_at"] is not None and bst["cont_at"] - 1 < len(rows_in) else None
@@ -877,8 +936,10 @@ def execute_storm(case):
                 return "%s: exchange not finished by the peer (its NEWKEYS: %d of %d; active(T,P)=%r)" % (why, p_newkeys(), k_newkeys, (T.is_active(), P.is_active()))
             r0 = n_replies()
             try:
-                P.send_raw_seq(peers.m_global_request(SENTINEL, True))
-            except (EOFError, OSError) as e:
+                # never inside an exchange of the puppet's own (mode "threshold": the streams may have made the tested
+                # side ask for the next one between the test above and this write)
+                P.send_conn(peers.m_global_request(SENTINEL, True), WAIT)
+            except (EOFError, OSError, peers.NotSent) as e:
                 return "%s: sentinel not sent: %r" % (why, e)
             got = P.wait_log(lambda lg: sum(1 for e in lg if e[1] in (81, 82)) > r0 or not T.is_active(), WAIT)
             if n_replies() <= r0:
